@@ -165,6 +165,8 @@ theorem XSim.l_lookupArr (n : Str) : XSim (lookupArr n) := by xsim_def lookupArr
 macro_rules | `(tactic| xsim_lib) => `(tactic| exact XSim.l_lookupArr _ )
 theorem XSim.l_scopeAct : XSim (scopeAct) := by xsim_def scopeAct
 macro_rules | `(tactic| xsim_lib) => `(tactic| exact XSim.l_scopeAct )
+theorem XSim.l_typeScopeAct : XSim (typeScopeAct) := by xsim_def typeScopeAct
+macro_rules | `(tactic| xsim_lib) => `(tactic| exact XSim.l_typeScopeAct )
 theorem XSim.l_lookupList {β : Type} (sel : Act → List (Str × β)) (n : Str) (g : Bool) : XSim (lookupList sel n g) := by xsim_def lookupList
 macro_rules | `(tactic| xsim_lib) => `(tactic| exact XSim.l_lookupList _ _ _ )
 theorem XSim.l_enumDefOf (n : Str) (g : Bool) : XSim (enumDefOf n g) := by xsim_def enumDefOf
